@@ -1,5 +1,5 @@
 (** One entry point for the extracted model runner: component number, numbers in, numbers out. *)
-From Remoc Require Import Lib.Base Run.RunCodec Run.RunRobsVec Run.RunRobsDeque Run.RunRobsList Run.RunRobsMap Run.RunRobsSet Run.RunPort Run.RunBroadcast Run.RunIoChan Run.RunEndpoint Run.RunHandle Run.RunLazy Run.RunRwLock Run.RunWatch Run.RunRobsLag Run.RunRtc.
+From Remoc Require Import Lib.Base Run.RunCodec Run.RunRobsVec Run.RunRobsDeque Run.RunRobsList Run.RunRobsMap Run.RunRobsSet Run.RunPort Run.RunBroadcast Run.RunIoChan Run.RunEndpoint Run.RunHandle Run.RunLazy Run.RunRwLock Run.RunWatch Run.RunRobsLag Run.RunRtc Run.RunPorts.
 
 Definition run (comp : N) (inp : list N) : list N :=
   match comp with
@@ -21,5 +21,6 @@ Definition run (comp : N) (inp : list N) : list N :=
   | 200 => run_lazy inp
   | 17 => run_rwlock inp
   | 15 => run_watch inp
+  | 5 => run_halves inp
   | _ => [97]
   end.
